@@ -92,7 +92,7 @@ func genC03(t *rapid.T) c03Case {
 		q.Clauses = append(q.Clauses, g.GenClauseMixed(fmt.Sprintf("c%d", i), bq.ClauseOpts{}))
 	}
 	aliased := false
-	if cs, ch := g.AliasBounds(q.Clauses, 35, false); ch {
+	if cs, ch := g.AliasBounds(q.Clauses, 35, true); ch {
 		q.Clauses, aliased = cs, true
 	}
 	var excl []string
